@@ -12,6 +12,8 @@ Line-protocol driver for the C03 models (model files only).
       → `outcome=<done|maxiter> remaining=<m,..> seq=<m>:<u,..>;… protos=<t,..>/… err=<notes>`
   W <path events>   see Model/FsWatch.lean:  W d=<p>:<mtime>:<size>:<hash>;… f=<p>:<mtime>:<size>:<hash>;… w=<p,..>
       → `changed=<p,..> data=<p>:<mtime>:<size>:<hash>;…`
+  M s=<m>:<p>;… p=<m>:<p>;… c=<p,..>     `Server._find_changed(sources, changed_paths)` with previous_sources = p
+      → `changed=<m>:<p>;… removed=<m>:<p>;…`
 -/
 open FineGrained
 
@@ -148,10 +150,25 @@ def runW (line : String) : String :=
   let ds := ";".intercalate (watched.filterMap fun p => (r.2 p).map fun d => s!"{p}:{d.mtime}:{d.size}:{d.hash}")
   s!"changed={showNats r.1} data={if ds.isEmpty then "-" else ds}"
 
+def parsePairs (s : String) : List (Nat × Nat) :=
+  (splitNE s ";").filterMap fun e =>
+    match (e.splitOn ":").map (·.toNat?) with
+    | [some m, some p] => some (m, p)
+    | _ => none
+
+def showPairs (l : List (Nat × Nat)) : String :=
+  if l.isEmpty then "-" else ";".intercalate (l.map fun (m, p) => s!"{m}:{p}")
+
+def runM (line : String) : String :=
+  let parts := (line.splitOn " ").filter (!·.isEmpty)
+  let r := FsWatch.changedModules (parsePairs (field parts "s")) (parsePairs (field parts "p")) (natList (field parts "c"))
+  s!"changed={showPairs r.1} removed={showPairs r.2}"
+
 def step (line : String) : String :=
   let line := line.trimAscii.toString
   if line.startsWith "P " then runP line
   else if line.startsWith "W " then runW line
+  else if line.startsWith "M " then runM line
   else "bad-op"
 
 partial def loop (h : IO.FS.Stream) : IO Unit := do
